@@ -309,6 +309,8 @@ fn normal_pos() -> impl Strategy<Value = f32> {
         2 => (1u32..255, -4i32..=4).prop_map(|(e, d)| f32::from_bits((((e << 23) as i64) + d as i64).clamp(0x0080_0000, 0x7F7F_FFFF) as u32)),
         2 => (0.0f32..1.0).prop_map(|x| x.max(f32::MIN_POSITIVE)),
         1 => (0.5f32..2.0),
+        // |x - 1| log-uniform 1e-7 .. 1e-1 (series / special-case branches around 1)
+        2 => (-7.0f32..-1.0, any::<bool>()).prop_map(|(e, neg)| 1.0 + 10f32.powf(e) * if neg { -1.0 } else { 1.0 }),
     ]
 }
 
@@ -478,4 +480,4 @@ pub fn replay(v: &Value) -> Result<(), String> {
     check(&case_from_json(v).ok_or("bad case")?, &mut Stats::new()).map_err(|v| v.message)
 }
 
-pub const RULE: &str = "cases = batches for one of: cbrtf (normal f32, both signs), powf ((x,y): x positive normal uniform in bit pattern / at exponent boundaries +-4 ulp / in (0,1) / near 1; y in [-80,80], every whole and half number of that range, the 12 exponents the library uses, small y), expf ([-85,85], [89,1e38], [-1e38,-88], arbitrary bits), totality (all 24x24 pairs of special values, random bit patterns for both arguments of cbrtf/powf/expf) generated by proptest, plus strided (quick) or complete (thorough) enumerations: cbrtf over all normal magnitudes, powf over all positive normal x for each library exponent, expf over all 2^32 patterns; interleaved repeated calls must reproduce the first result bitwise (purity); oracle = f64 libm with the statement's bounds (builds without fastmath: 2 ulp of libm); a panic (incl. the verif hook before to_int_unchecked) is a violation; non-trivial = batch with at least one compared value; distinct = by hash of argument bits";
+pub const RULE: &str = "cases = batches for one of: cbrtf (normal f32, both signs), powf ((x,y): x positive normal uniform in bit pattern / at exponent boundaries +-4 ulp / in (0,1) / near 1 (|x-1| log-uniform 1e-7..1e-1); y in [-80,80], every whole and half number of that range, the 12 exponents the library uses, small y), expf ([-85,85], [89,1e38], [-1e38,-88], arbitrary bits), totality (all 24x24 pairs of special values, random bit patterns for both arguments of cbrtf/powf/expf) generated by proptest, plus strided (quick) or complete (thorough) enumerations: cbrtf over all normal magnitudes, powf over all positive normal x for each library exponent, expf over all 2^32 patterns; interleaved repeated calls must reproduce the first result bitwise (purity); oracle = f64 libm with the statement's bounds (builds without fastmath: 2 ulp of libm); a panic (incl. the verif hook before to_int_unchecked) is a violation; non-trivial = batch with at least one compared value; distinct = by hash of argument bits";
